@@ -19,12 +19,16 @@ func mkdirAll(d *Dir, subPath string, filemode os.FileMode) (dir *Dir, err error
 	return mkdirAllNodes(d, strings.Split(subPath, "/"), filemode)
 }
 
-func mkdirAllNodes(d *Dir, nodesPath []string, filemode os.FileMode) (dir *Dir, err error) {
-	for _, nodeName := range nodesPath {
+// mkdirAllNodes starts again from the root directory when a directory of the path is removed concurrently
+func mkdirAllNodes(root *Dir, nodesPath []string, filemode os.FileMode) (dir *Dir, err error) {
+	dir = root
+	for i := 0; i < len(nodesPath); i++ {
 		verifhook.Yield("memfs.mkdir.gap")
-		if d, err = d.mkdir(nodeName, filemode); err != nil {
+		if dir, err = dir.mkdir(nodesPath[i], filemode); err == errDirRemoved {
+			dir, i = root, -1
+		} else if err != nil {
 			return nil, err
 		}
 	}
-	return d, nil
+	return dir, nil
 }
